@@ -19,6 +19,8 @@ def alias (op : String) (args : List String) : String × List String :=
   | "cert.read.buffer", _ => ("cert.read", args)
   | "bundle.read.buffer", _ => ("bundle.read", args)
   | "sxg.read.buffer", _ => ("sxg.read", args)
+  | "mice.dec.copy", _ => ("mice.dec", args)
+  | "cw.seq", [k, room, seq] => ("cw.seq", [k, room, seq.replace "R" "r"])   -- R: the source reports io.EOF together with its last bytes
   | "mice.twice", [d, mx, dg, _, b] => ("mice.all", [d, mx, dg, b])
   | "sxg.reread", what :: _ :: rest => ("sxg." ++ what, rest)
   | _, _ => (op, args)
